@@ -25,7 +25,8 @@ What the code does, including its quirks:
   `*big.Int`: panic), the new one added, and `Bytes()` (absolute value) is written back;
 * `refreshAllVote` runs before `subTotal`, so the threshold test of a parameter vote refreshed by an
   unstake still sees the old staking total;
-* `threshold` divides by `power / 100` (panic for 0 < power < 100);
+* `threshold` divides by `power / 100`; since repair f9db0000 a tally below 100 aer (no hundredth) simply does
+  not reach the threshold (before it: division by zero, a Go panic inside block execution);
 * `VoteList.Less` breaks ties by `Candidate[7:]` read as a big-endian integer when the *left* candidate
   is 39 bytes long, else by the whole candidate as an integer (leading zero bytes do not count), and —
   since repair 1c75543b — by `bytes.Compare` of the whole candidates when those integers are equal;
@@ -479,10 +480,12 @@ def parseDec (b : Bytes) : Option Nat :=
     | none => none
     | some n => if 48 ≤ x.toNat ∧ x.toNat ≤ 57 then some (n * 10 + (x.toNat - 48)) else none) (some 0)
 
-/-- VoteResult.threshold: `none` = division by zero panic. -/
+/-- VoteResult.threshold (after repair f9db0000: a top tally below 100 aer has no hundredth and decides nothing;
+before it the division by zero was a Go panic). The result is always `some _`: the `Option` is kept for
+`syncParam`, whose other panic (empty list) remains. -/
 def threshold (total power : Nat) : Option Bool :=
   if power = 0 then some false
-  else if power / 100 = 0 then none
+  else if power / 100 = 0 then some false
   else some (decide (total / (power / 100) ≤ 150))
 
 /-- The sender's account id (`Sender.AccountID()`; supplied with the account declaration). -/
@@ -518,7 +521,7 @@ def revoteVtotal (vt : AMap Issue Nat) (i : Issue) (oldA newA : Nat) : AMap Issu
   else vt
 
 /-- The parameter part of `VoteResult.Sync`: the leading entry against the threshold.
-`none`: panic (empty list, or division by zero); `some none`: no change; `some (some v)`: updateParam. -/
+`none`: panic (empty list); `some none`: no change; `some (some v)`: updateParam. -/
 def syncParam (total : Nat) (t : AMap (Issue × Bytes) Nat) (i : Issue) : Option (Option Nat) :=
   match rankOf t i with
   | [] => none   -- resultList.Votes[0]: index out of range
